@@ -242,7 +242,12 @@ func (f *Func) callGraph(args *argBuilder) (
 		}
 	}
 
-	log.Trace("full graph (may have cycles)", "graph", g.String())
+	// The graph is only rendered when it is going to be logged: rendering
+	// formats every input value, which is wasted work otherwise and never
+	// ends for a value that contains itself.
+	if log.IsTrace() {
+		log.Trace("full graph (may have cycles)", "graph", g.String())
+	}
 
 	// Next we do a DFS from each input A in I to the function F.
 	// This gives us the full set of reachable nodes from our inputs
@@ -278,7 +283,9 @@ func (f *Func) callGraph(args *argBuilder) (
 			g.Remove(v)
 		}
 	}
-	log.Trace("graph after input DFS", "graph", g.String())
+	if log.IsTrace() {
+		log.Trace("graph after input DFS", "graph", g.String())
+	}
 
 	// Go through all our inputs. If any aren't in the graph any longer
 	// it means there is no possible path to that input so it cannot be
